@@ -510,8 +510,9 @@ func (o *coreOracle) checkBRStatusWrite(s *Sim, w *Write) {
 		s.cur.Flags["br-status-write"] = true
 	}
 	// B1: a batch is reported Ready only when the workload (as this reconcile saw it) is ready
-	entering := ob.Status.CanaryStatus.CurrentBatchState != v1beta1.ReadyBatchState || ob.Status.CanaryStatus.CurrentBatch != nb.Status.CanaryStatus.CurrentBatch
-	if ob.Status.ObservedReleasePlanHash != "" && ob.Status.ObservedReleasePlanHash != nb.Status.ObservedReleasePlanHash {
+	// judged against the status this reconcile had read (a status written from a stale read is a lost update, not a decision)
+	entering := rd.Status.CanaryStatus.CurrentBatchState != v1beta1.ReadyBatchState || rd.Status.CanaryStatus.CurrentBatch != nb.Status.CanaryStatus.CurrentBatch
+	if rd.Status.ObservedReleasePlanHash != "" && rd.Status.ObservedReleasePlanHash != nb.Status.ObservedReleasePlanHash {
 		entering = true // the status claims Ready for a plan it has just observed: the plan changed, so it must hold for the new plan
 	}
 	if nb.Status.Phase == v1beta1.RolloutPhaseProgressing && nb.Status.CanaryStatus.CurrentBatchState == v1beta1.ReadyBatchState && entering {
